@@ -174,6 +174,14 @@ Definition lower_sig (s : signature) : ir_signature :=
   then {| is_name := s_name s; is_ret := LVoid; is_params := LPtr ret :: params |}
   else {| is_name := s_name s; is_ret := ret; is_params := params |}.
 
+(* declareImportedFuncDecl (compiler.go 2187-2228), used when the callee lives in another module: a second,
+   textually separate copy of the same construction *)
+Definition lower_sig_imported (s : signature) : ir_signature :=
+  let ret := match s_ret s with None => LVoid | Some r => ll_ty r end in
+  let has_return_param := negb (ret_is_prim (s_ret s)) in
+  let params := (if has_return_param then [LPtr ret] else []) ++ map ll_param (s_params s) in
+  {| is_name := s_name s; is_ret := if has_return_param then LVoid else ret; is_params := params |}.
+
 Fixpoint ll_rep (l : llty) : rep :=
   match l with
   | LI1 => RBool | LI8 => RInt 8 | LI32 => RInt 32 | LI64 => RInt 64 | LDouble => RF64 | LVoid => RVoid
